@@ -140,7 +140,6 @@ func H_Codec_RoundTrip() {
 	vx.Reach("codec/roundtrip-end")
 }
 
-
 // normBF normalises the spelling of U+0008 and U+000C, which differs between Go releases (short escapes in the
 // standard library of this toolchain, \u00XX in the fork): the property says it is normalised before comparing.
 func normBF(b []byte) []byte {
